@@ -198,8 +198,11 @@ func subWriterReset() mon.Sub {
 			} else {
 				a = wsutil.NewWriterSize(hdst, hcfg.state(), ws.OpCode(hcfg.op), size)
 			}
+			// the application keeps ONE extension list per connection and attaches it by spreading
+			// it (the usual pattern): the list stays the application's
+			exts := []wsutil.SendExtension{rsv2}
 			if hcfg.ext {
-				a.SetExtensions(rsv2)
+				a.SetExtensions(exts...)
 			}
 			if hcfg.noFlush {
 				a.DisableFlush()
@@ -249,6 +252,17 @@ func subWriterReset() mon.Sub {
 			if b == nil {
 				c.Inconclusive("cannot build a fresh writer with the same Size()")
 				return
+			}
+			if exts[0] == nil {
+				c.Fail("writer/"+mode+"/caller-extension-list", mode+" wrote into the extension list the application had attached with SetExtensions(list...)", map[string]interface{}{"mode": mode, "history": hist})
+				return
+			}
+			if mode != "ResetOp" && c.Rng.Intn(2) == 0 {
+				// the next connection attaches its extensions again: the application's list to the
+				// re-used writer, an equal list to the new one
+				ncfg.ext = true
+				a.SetExtensions(exts...)
+				b.SetExtensions([]wsutil.SendExtension{rsv2}...)
 			}
 			c.Count(1)
 			sops := append(randOps(c, 1+c.Rng.Intn(12)), wops.Op{Kind: wops.Flush})
